@@ -330,8 +330,8 @@ def run_property(spec, tier, seed, replay=None, quick_vm=24, thorough_vm=120):
                                                                 "cmp_equal", "inexact_div", "exhaustive", "seconds")
                                             if k in b64}
     run.assumptions = list(spec.assumptions) + [
-        "input delivered as N-Triples text through raw_graph (the reader is C06's subject); literal contents are "
-        "alphanumeric", "decimal rendering of ratios is done by the harness shim with the same Python expressions "
+        "input delivered as N-Triples text through raw_graph (the reader is C06's subject); "
+        + getattr(spec, "literal_contents", "literal contents are alphanumeric"), "decimal rendering of ratios is done by the harness shim with the same Python expressions "
         "(str(p*100), '{:.nf}', int(p*100)); the model emits the exact figure n/N",
         "binary64 arithmetic of the model is Lib/Bin64 (software rounding), validated against CPython floats"]
     return run.finish(bs)
